@@ -606,6 +606,63 @@ def compile_task_wait(fn: ast.FunctionDef) -> _Emit:
 
 # ---------------------------------------------------------------------------------------------------------------------
 
+def analyse_constructor(pub, cls: str) -> dict:
+    """The constructor must create the pieces the programs talk about.  Returns how the two capacities relate: the value the
+    full-queue test of `_receive_signal` compares with (`self._max_queue_length`) and the bound of the deque
+    (`deque(maxlen=…)`).  The model has ONE capacity; `tied` says the source justifies that."""
+    init = _find_class_func(pub, cls, "__init__")
+    maxlen_expr, cap_expr, have_cond, have_counter = None, None, False, False
+    aliases = {}                   # simple local aliases `x = <expr>` inside __init__
+    for st in ast.walk(init):
+        if isinstance(st, ast.AnnAssign) and st.value is not None:
+            targets, value = [st.target], st.value
+        elif isinstance(st, ast.Assign):
+            targets, value = st.targets, st.value
+        else:
+            continue
+        for tg in targets:
+            if isinstance(tg, ast.Name):
+                aliases[tg.id] = value
+            if _is_self_attr(tg, "_queue"):
+                if not (isinstance(value, ast.Call) and isinstance(value.func, ast.Name) and value.func.id == "deque" and not value.args
+                        and len(value.keywords) == 1 and value.keywords[0].arg == "maxlen"):
+                    raise Untranslatable(f"QMI_SignalReceiver.__init__ line {st.lineno}: the queue is not `deque(maxlen=…)`: {u(st)[:100]}")
+                if maxlen_expr is not None:
+                    raise Untranslatable("QMI_SignalReceiver.__init__ creates the queue twice")
+                maxlen_expr = value.keywords[0].value
+            if _is_self_attr(tg, "_max_queue_length"):
+                if cap_expr is not None:
+                    raise Untranslatable("QMI_SignalReceiver.__init__ sets _max_queue_length twice")
+                cap_expr = value
+            if _is_self_attr(tg, "_queue_cond"):
+                have_cond = u(value) == "threading.Condition()"
+            if _is_self_attr(tg, "_receiver_seqnr"):
+                have_counter = u(value) in ("0", "itertools.count()")
+    if maxlen_expr is None or cap_expr is None:
+        raise Untranslatable("QMI_SignalReceiver.__init__ does not create `self._queue = deque(maxlen=…)` and `self._max_queue_length`")
+    if not have_cond:
+        raise Untranslatable("QMI_SignalReceiver.__init__ no longer contains `self._queue_cond = threading.Condition()`")
+    if not have_counter:
+        raise Untranslatable("QMI_SignalReceiver.__init__: the sequence counter is initialised in an unknown way")
+
+    def resolve(e, depth=0):
+        while isinstance(e, ast.Name) and e.id in aliases and depth < 4:
+            e, depth = aliases[e.id], depth + 1
+        return e
+    a, b = resolve(maxlen_expr), resolve(cap_expr)
+    tied = ast.dump(a) == ast.dump(b)
+    # nobody else may re-bind either of them
+    others = 0
+    for node in pub.body:
+        if isinstance(node, ast.ClassDef) and node.name == cls:
+            for m in node.body:
+                if isinstance(m, ast.FunctionDef) and m.name != "__init__":
+                    for st in ast.walk(m):
+                        tgs = st.targets if isinstance(st, ast.Assign) else ([st.target] if isinstance(st, (ast.AugAssign, ast.AnnAssign)) else [])
+                        others += sum(1 for tg in tgs if _is_self_attr(tg, "_max_queue_length"))
+    return {"tied": tied and others == 0, "maxlen": u(maxlen_expr), "compared": u(cap_expr), "rebinds_elsewhere": others}
+
+
 def build(repo: Path) -> dict:
     pub = ast.parse((repo / "qmi" / "core" / "pubsub.py").read_text())
     tsk = ast.parse((repo / "qmi" / "core" / "task.py").read_text())
@@ -619,14 +676,7 @@ def build(repo: Path) -> dict:
         "plainWait": compile_dispatch(_find_func(pub, "_wait_for_condition")),
         "taskWait": compile_task_wait(_find_class_func(tsk, "_TaskThread", "wait_for_condition")),
     }
-    # the constructor must create the pieces the programs talk about
-    init = _find_class_func(pub, cls, "__init__")
-    src = u(init)
-    for need in ("self._queue = deque(maxlen=max_queue_length)", "self._queue_cond = threading.Condition()"):
-        if need not in src:
-            raise Untranslatable(f"QMI_SignalReceiver.__init__ no longer contains `{need}`")
-    if "self._receiver_seqnr = 0" not in src and "self._receiver_seqnr = itertools.count()" not in src:
-        raise Untranslatable("QMI_SignalReceiver.__init__: the sequence counter is initialised in an unknown way")
+    out["_cap"] = analyse_constructor(pub, cls)
     return out
 
 
@@ -651,6 +701,14 @@ def render(progs: dict) -> str:
             safe = src.replace("-/", "- /").replace("/-", "/ -")
             L.append(f"  /- {k} -/ {ins}{comma}  -- {ln}: {safe}")
         L.append("]")
+        L.append("")
+    cap = progs.get("_cap")
+    if cap is not None:
+        L.append("/-- the bound of the deque and the value the full-queue test compares with are the same expression of the")
+        L.append("constructor (and nothing re-binds it):")
+        safe = lambda x: x[:90].replace("-/", "- /").replace("/-", "/ -")  # noqa
+        L.append(f"  deque(maxlen = {safe(cap['maxlen'])}),  self._max_queue_length = {safe(cap['compared'])} -/")
+        L.append(f"def capTied : Bool := {'true' if cap['tied'] else 'false'}")
         L.append("")
     L.append("def progs : Progs :=")
     L.append("  { recv := recv, get := get, discard := discard, len := len, ready := ready, plainWait := plainWait, taskWait := taskWait }")
@@ -680,6 +738,7 @@ def render_reference(why: str) -> str:
         em = _Emit(_FNAMES[k])
         em.code = [(ins, "(reference program: the source could not be translated)", 0) for ins in code]
         progs[k] = em
+    progs["_cap"] = {"tied": True, "maxlen": "(reference)", "compared": "(reference)"}
     first = why.replace("-/", "- /").replace("/-", "/ -").splitlines()[0][:160]
     return render(progs).replace("# GENERATED by harness/tr_recvprog.py — do not edit",
                                  "# GENERATED by harness/tr_recvprog.py — do not edit\n\nTRANSLATION FAILED (" + first + "): reference programs written instead.")
@@ -687,4 +746,7 @@ def render_reference(why: str) -> str:
 
 def signature(progs: dict) -> dict:
     """plain-data view of the programs (for the harness / evidence)"""
-    return {k: [ins for (ins, _, _) in em.code] for k, em in progs.items()}
+    out = {k: [ins for (ins, _, _) in em.code] for k, em in progs.items() if not k.startswith("_")}
+    if "_cap" in progs:
+        out["_cap"] = progs["_cap"]
+    return out
